@@ -84,9 +84,35 @@ def hostile_grid(rng, kinds):
     return g
 
 
+def bulk_waveform(rng, kinds):
+    """Tens of thousands of noisy entries: a blob that stays tens of KiB even after compression."""
+    kinds.add("waveform:bulk-noise")
+    n = rng.choice([25200, 30000, 65536, 100000])
+    return rng.randbytes(6 * n).hex()
+
+
+def bulk_grid(rng, kinds):
+    """Thousands of markers with jittered offsets (incompressible doubles)."""
+    kinds.add("grid:bulk-noise")
+    n = rng.choice([4000, 9000, 40000])
+    g, idx, off = [], -4, -1000.0
+    for _ in range(n):
+        g.append([idx, GS.dbits(off)])
+        idx += rng.randrange(1, 9)
+        off += rng.uniform(5000.0, 30000.0)
+    return g
+
+
 def hostile_snapshot(rng, schema, kinds):
     s = GS.gen_snapshot(rng, schema, rich=rng.random() < 0.5, hostile_sentinels=True, allow_nul=True, borderline=True)
     r = rng.random
+    if r() < 0.04:
+        s["waveform"] = bulk_waveform(rng, kinds)
+        s.setdefault("sample_rate", GS.dbits(44100.0))
+        s.setdefault("sample_count", 10 ** 7)
+        if r() < 0.5:
+            s["beatgrid"] = bulk_grid(rng, kinds)
+        return s
     if r() < 0.3:
         # waveform although rate and/or count are absent
         n = rng.choice([1, 7, 1024])
@@ -179,7 +205,9 @@ def hostile_setter(rng, schema, th, kinds):
         val = [hostile_loop(rng, kinds) for _ in range(rng.choice([0, 1, 7, 8, 9, 12]))]
         kinds.add("loops:count")
     elif field == "beatgrid":
-        val = hostile_grid(rng, kinds)
+        val = bulk_grid(rng, kinds) if rng.random() < 0.06 else hostile_grid(rng, kinds)
+    elif rng.random() < 0.06:
+        val = bulk_waveform(rng, kinds)
     else:  # waveform, regardless of whether rate/count are present
         val = GS.rwaveform(rng, rng.choice([0, 1, 5, 1024]))
         kinds.add("waveform:without-rate-or-count")
